@@ -25,9 +25,9 @@ def clauseB (f : Node → Bool) (c : Node) : Bool :=
   match c.name with
   | "except" =>
     c.tok.isSome && !c.children.isEmpty && allKids f c.children &&
-    -- the first child of a clause with several children is never a `statements` / `guard` node
+    -- the first child of a clause with several children carries a token (the binding variable / first type)
     (match c.children with
-     | some k0 :: _ :: _ => k0.name != "statements" && k0.name != "guard"
+     | some k0 :: _ :: _ => k0.tok.isSome
      | _ => true)
   | "otherwise" | "finally" => c.tok.isSome && (match c.children with | [some b] => f b | _ => false)
   | _ => true
@@ -42,31 +42,33 @@ mutual
 def fragB : Nat → Node → Bool
   | 0, _ => false
   | k+1, n =>
-    -- the parser builds `statements` and `guard` nodes without a token
-    (n.tok.isSome || n.name == "statements" || n.name == "guard") &&
+    -- the parser builds `statements`, `guard` (and the `true` of an else-guard) without a token; constants and the
+    -- nodes the model does not evaluate need none
     (match n.name with
-     | "true" | "false" | "null" | "number" | "string" | "break" | "continue" => true
-     | "plus" | "minus" =>
+     | "true" | "false" | "null" => true
+     | "number" | "string" | "break" | "continue" => n.tok.isSome
+     | "plus" | "minus" => n.tok.isSome &&
        (match n.children with
         | [some c] => fragB k c
         | [some a, some b] => fragB k a && fragB k b
         | _ => false)
-     | "not" | "guard" | "let" => (match n.children with | [some c] => fragB k c | _ => false)
-     | "as" => (match n.children with | [some c] => fragB k c && c.name != "statements" && c.name != "guard" | _ => false)
+     | "guard" => (match n.children with | [some c] => fragB k c | _ => false)
+     | "not" | "let" => n.tok.isSome && (match n.children with | [some c] => fragB k c | _ => false)
+     | "as" => n.tok.isSome && (match n.children with | [some c] => fragB k c && c.tok.isSome | _ => false)
      | "times" | "div" | "divint" | "modint" | "and" | "or" | "==" | "!=" | ">=" | ">" | "<=" | "<" | "in" | "notin"
-     | "hasprefix" | "hassuffix" | ":=" | "loop" =>
+     | "hasprefix" | "hassuffix" | ":=" | "loop" => n.tok.isSome &&
        (match n.children with | [some a, some b] => fragB k a && fragB k b | _ => false)
-     | "return" => (match n.children with | [] => true | [some c] => fragB k c | _ => false)
+     | "return" => n.tok.isSome && (match n.children with | [] => true | [some c] => fragB k c | _ => false)
      | "statements" => allKids (fragB k) n.children
-     | "list" => allKids (fun c => fragB k c && c.name != "statements" && c.name != "guard") n.children
-     | "map" => allKids (entryB (fragB k)) n.children
-     | "identifier" => allKids (linkB k) n.children
-     | "if" => pairsB (fragB k) n.children
-     | "try" =>
+     | "list" => n.tok.isSome && allKids (fun c => fragB k c && c.tok.isSome) n.children
+     | "map" => n.tok.isSome && allKids (entryB (fragB k)) n.children
+     | "identifier" => n.tok.isSome && allKids (linkB k) n.children
+     | "if" => n.tok.isSome && pairsB (fragB k) n.children
+     | "try" => n.tok.isSome &&
        (match n.children with
         | some body :: rest => fragB k body && body.name != "finally" && allKids (clauseB (fragB k)) rest
         | _ => false)
-     | "function" =>
+     | "function" => n.tok.isSome &&
        (match n.children with
         | [some c0, some params, some body] =>
           c0.name == "identifier" && c0.tok.isSome && allKids (paramB (fragB k)) params.children && fragB k body
@@ -74,7 +76,7 @@ def fragB : Nat → Node → Bool
           params.name != "identifier" && allKids (paramB (fragB k)) params.children && fragB k body
         | _ => false)
      | "like" | "kvp" | "preset" | "params" | "funccall" | "compaccess" | "except" | "otherwise" | "finally"
-     | "sink" | "import" | "mutex" => true
+     | "sink" | "import" | "mutex" | "kindmatch" | "scopematch" | "statematch" | "priority" | "suppresses" | "EOF" => true
      | _ => false)
 def linkB : Nat → Node → Bool
   | 0, _ => false
